@@ -5,18 +5,19 @@ Model of the rule-level part of esbuild's CSS `--minify-syntax`, read line by li
 * `mangleRules` (css_parser.go): removal of empty rules (with the exceptions for `@keyframes`, named `@layer`,
   and at-rules that are not in `atKnownRuleCanBeRemovedIfEmpty`), collapsing of `@layer a { @layer b {…} }`,
   unwrapping of an `@media` whose queries equal those of an ENCLOSING `@media` (`p.enclosingAtMedia`), merging of a
-  selector rule into the previous non-comment rule when the bodies are `RulesEqual` and both selector lists are
-  `isSafeSelectors` (selectors already present are not added twice), and – for every list that is not the top
+  selector rule into the previous non-comment rule when the bodies are `RulesEqual`, both selector lists are
+  `isSafeSelectors` and the body has no nested rules (`containsNestedRules`; selectors already present are not added twice), and – for every list that is not the top
   level of a file – the back-to-front duplicate removal;
 * `parseSelectorList`: "Omit duplicate selectors" inside one selector list;
 * `MakeDeadRuleMangler` / `RemoveDeadRulesInPlace`: back-to-front pass that drops a selector rule all of whose
-  selectors are dead (`:is()` / `:where()` with an empty list) and every rule for which an `Equal` rule was already
+  selectors are dead (`:is()` / `:where()` with an empty list) unless it contains nested rules, and every rule for which an `Equal` rule was already
   seen (= stands later); the linker (generateChunkCSS) runs it with ONE remover over the top-level rules of all
   files of a chunk, last file first;
 * `Equal` of the rule types (`RAtLayer.Equal` and `RAtImport.Equal` always answer false, and so does `RKnownAt.Equal`
   for the token "layer" – the wrapper the linker puts around the rules of `@import … layer(…)`; at-tokens are compared
-  with `EqualFold`; `SSPseudoClass.Equal` compares the argument tokens with `TokensEqual`, which cannot tell "no
-  arguments" from "empty argument list"), `isSafeSelectors`, `allSelectorsAreDead`.
+  with `EqualFold`; `SSPseudoClass.Equal` compares the argument tokens with `TokensEqual` and, since `TokensEqual` cannot tell
+  "no arguments" from "empty argument list", also `Args == nil`), `isSafeSelectors`, `allSelectorsAreDead`,
+  `containsNestedRules`.
 
 What is NOT modelled: the hash buckets of the remover (the model compares with every rule seen; the code only with
 rules of the same hash – the same thing as long as `Equal` rules have equal hashes, which the correspondence tests),
@@ -67,7 +68,8 @@ def subEq : Sub → Sub → Bool
   | .hash a, .hash b => a == b
   | .cls a, .cls b => a == b
   | .attr t m, .attr t' m' => t == t' && m == m'
-  | .pseudo n _ args el, .pseudo n' _ args' el' => n == n' && args == args' && el == el'
+  -- `(a.Args == nil) == (b.Args == nil)`: ":x" is not ":x()"
+  | .pseudo n h args el, .pseudo n' h' args' el' => n == n' && args == args' && el == el' && h == h'
   | .pseudoList k inner _, .pseudoList k' inner' _ => k == k' && inner == inner'
   | _, _ => false
 
@@ -156,7 +158,8 @@ inductive Rule
   | known (tok : String) (prelude : String) (body : List Rule)          -- RKnownAt (@supports, @container, @font-face …)
   | other (kind : String) (prelude : String) (body : List Rule)        -- RQualified, RAtScope: a body, no case in mangleRules
   | keyframes (text : String)                                          -- RAtKeyframes (opaque)
-  | atom (text : String)                                               -- other rule with a hash (unknown at-rule, bad declaration, @charset …)
+  | badDecl (text : String)                                            -- RBadDeclaration
+  | atom (text : String)                                               -- other rule with a hash (unknown at-rule, @charset …)
   | comment (text : String)                                            -- RComment
   | atImport (text : String)                                           -- RAtImport: no hash, never equal
   deriving Repr, Inhabited
@@ -164,6 +167,16 @@ inductive Rule
 def Rule.isComment : Rule → Bool
   | .comment _ => true
   | _ => false
+
+/-- the cases of `containsNestedRules` that do not count: RDeclaration, RBadDeclaration, RComment -/
+def Rule.isPlain : Rule → Bool
+  | .decl .. => true
+  | .badDecl _ => true
+  | .comment _ => true
+  | _ => false
+
+/-- `containsNestedRules` -/
+def containsNestedRules (rules : List Rule) : Bool := rules.any (fun r => !r.isPlain)
 
 /-- ASCII lower-casing: how `strings.EqualFold` behaves on the ASCII at-tokens the harness generates -/
 def foldEq (a b : String) : Bool := a.toLower == b.toLower
@@ -180,6 +193,7 @@ def ruleEq : Rule → Rule → Bool
   | .known a p b, .known a' p' b' => !foldEq a "layer" && foldEq a a' && p == p' && rulesEq b b'
   | .other k p b, .other k' p' b' => k == k' && p == p' && rulesEq b b'
   | .keyframes t, .keyframes t' => t == t'
+  | .badDecl t, .badDecl t' => t == t'
   | .atom t, .atom t' => t == t'
   | .comment t, .comment t' => t == t'
   | .atImport _, _ => false
@@ -208,8 +222,9 @@ def dedupSelectors (sels : List Complex) : List Complex := dedupSelectorsAux [] 
 
 /-! ## `RemoveDeadRulesInPlace` -/
 
+/-- `allSelectorsAreDead(r.Selectors) && !containsNestedRules(r.Rules)` -/
 def Rule.isDeadSelectorRule : Rule → Bool
-  | .sel sels _ => allSelectorsAreDead sels
+  | .sel sels body => allSelectorsAreDead sels && !containsNestedRules body
   | _ => false
 
 /-- The loop `for i := n - 1; i >= 0; i--`: the rules after `r` are handled first.  `seen` stands for
@@ -288,7 +303,7 @@ def mangleStep (enc : List String) (s : MState) (r : Rule) : MState :=
     else
       match s.prev with
       | some (.sel prevSels prevBody) =>
-        if rulesEq body prevBody && isSafeSelectors sels && isSafeSelectors prevSels then
+        if rulesEq body prevBody && isSafeSelectors sels && isSafeSelectors prevSels && !containsNestedRules body then
           { s with prev := some (.sel (mergeSelectors prevSels sels) prevBody) }
         else s.push r
       | _ => s.push r
@@ -338,7 +353,7 @@ One argument per file; a file is a space separated token stream:
   file     := [ "W" str str ] rules        ("W" at-token prelude: the file's rules get this wrapper after parsing)
   rules    := rule* ")"
   rule     := "S" complexes rules | "D" str str bool | "M" str rules | "L" bool names rules | "K" str str rules
-            | "Q" str str rules | "F" str | "A" str | "C" str | "I" str
+            | "Q" str str rules | "F" str | "B" str | "A" str | "C" str | "I" str
   complexes:= complex* ")"        complex := "(" compound* ")"
   compound := "c" nat nat type sub* ")"      type := "-" | "t" pfx str str     pfx := "-" | "n" str str
   sub      := "h" str | "." str | "a" str nat | "p" str bool str bool | "l" str str bool
@@ -444,6 +459,7 @@ def pRules : Nat → Toks → Option (List Rule × Toks)
       | "K" => do let (a, r) ← pStr r; let (p, r) ← pStr r; let (b, r) ← pRules fuel r; pure (Rule.known a p b, r)
       | "Q" => do let (k, r) ← pStr r; let (p, r) ← pStr r; let (b, r) ← pRules fuel r; pure (Rule.other k p b, r)
       | "F" => do let (t, r) ← pStr r; pure (Rule.keyframes t, r)
+      | "B" => do let (t, r) ← pStr r; pure (Rule.badDecl t, r)
       | "A" => do let (t, r) ← pStr r; pure (Rule.atom t, r)
       | "C" => do let (t, r) ← pStr r; pure (Rule.comment t, r)
       | "I" => do let (t, r) ← pStr r; pure (Rule.atImport t, r)
@@ -502,6 +518,7 @@ def showRule : Rule → List String
   | .known a p b => "K" :: showStr a :: showStr p :: showRules b
   | .other k p b => "Q" :: showStr k :: showStr p :: showRules b
   | .keyframes t => ["F", showStr t]
+  | .badDecl t => ["B", showStr t]
   | .atom t => ["A", showStr t]
   | .comment t => ["C", showStr t]
   | .atImport t => ["I", showStr t]
